@@ -31,8 +31,10 @@ ANCHORS = ['debian._deb822_repro.tokens:tokenize_deb822_file',
            'debian._deb822_repro.parsing:Deb822Element.iter_tokens',
            'debian._deb822_repro.parsing:Deb822Element.convert_to_text']
 MUST_REACH = ANCHORS[:6]
-FLOORS = {'quick': {'nontrivial': 15000, 'monitors': {'M.tokens': 20000, 'M.dump': 20000, 'M.parts': 20000}},
-          'thorough': {'nontrivial': 400000, 'monitors': {'M.tokens': 500000, 'M.dump': 500000, 'M.parts': 500000}}}
+FLOORS = {'quick': {'nontrivial': 15000, 'monitors': {'M.tokens': 20000, 'M.dump': 20000, 'M.parts': 20000},
+                    'counters': {'after-aborted-parse:ioerror': 250, 'after-aborted-parse:bad-line': 250}},
+          'thorough': {'nontrivial': 400000, 'monitors': {'M.tokens': 500000, 'M.dump': 500000, 'M.parts': 500000},
+                       'counters': {'after-aborted-parse:ioerror': 25000, 'after-aborted-parse:bad-line': 25000}}}
 LEVEL_TEXT = ('Runtime monitoring of tokenize_deb822_file / parse_deb822_file on the live tree: a bounded-exhaustive sweep of '
               'line-class adjacencies plus a large seeded random workload over a hostile alphabet and mutated fixtures; '
               'after every execution the harness compares all text-producing views of the result with the text it fed in. '
@@ -131,8 +133,13 @@ def cases(ctx):
         lines = make_lines(bodies, form)
         if lines is None:
             continue
-        yield {'kind': 'doc', 'lines': lines, 'form': form, 'as': r.choice(['str', 'str', 'bytes']),
-               'it': r.choice(['iter', 'list']), 'src': 'random'}
+        case = {'kind': 'doc', 'lines': lines, 'form': form, 'as': r.choice(['str', 'str', 'bytes']),
+                'it': r.choice(['iter', 'list']), 'src': 'random'}
+        if r.random() < .06:
+            case['abort'] = {'mode': r.choice(['ioerror', 'bad-line']),
+                             'lines': [rand_line(r) + '\n' for _ in range(r.randint(1, 6))]}
+            case['src'] = 'random-after-abort'
+        yield case
     # (c) fixtures, whole and mutated
     r = ctx.rng('fixtures')
     files = fixture_files()
@@ -196,9 +203,33 @@ def _classify_exception(case, exc):
     return None
 
 
+class _SourceFailed(OSError):
+    pass
+
+
+def _failing_source(lines, mode):
+    for l in lines:
+        yield l
+    if mode == 'ioerror':
+        raise _SourceFailed(5, 'read error in the middle of the file (injected)')
+    yield 'unterminated line in the middle'       # mode == 'bad-line': violates the pre-condition -> ValueError
+    yield 'Z: z\n'
+
+
 def run_case(ctx, case):
     from debian._deb822_repro import parse_deb822_file
     from debian._deb822_repro.tokens import tokenize_deb822_file
+    ab = case.get('abort')
+    if ab:
+        # an EARLIER parse that does not complete (I/O error of the line source / malformed line) must leave nothing
+        # behind that shows up in the next, unrelated parse
+        ctx.count('after-aborted-parse:' + ab['mode'])
+        for fn in (lambda src: list(tokenize_deb822_file(src)),
+                   lambda src: parse_deb822_file(src, accept_files_with_error_tokens=True, accept_files_with_duplicated_fields=True)):
+            try:
+                fn(_failing_source(ab['lines'], ab['mode']))
+            except (_SourceFailed, ValueError):
+                pass
     lines, form = case['lines'], case['form']
     exp = expected(lines, form)
     classes = set(line_class(l.rstrip('\n')) for l in lines)
